@@ -1,4 +1,6 @@
 """C09 — missing-value policy: drop / error / pass."""
+import re
+
 import numpy as np
 import pandas as pd
 
@@ -13,6 +15,14 @@ ASSUMPTIONS = [
     "plain variables or in pointwise calls (a missing categorical value under pass raises TypeError "
     "in sorted(): outside the statement, D19 of DESIGN.md)",
 ]
+ASSUMPTIONS.append(
+    "history stage: one DataFrame object is passed to design_matrices, then edited IN PLACE (missing "
+    "values written into / filled in / moved between rows of used and unused columns; row count "
+    "unchanged), then passed again under each policy; the second call is judged by the same relations "
+    "(drop = run on the filtered frame, error <=> an incomplete row exists, pass rule, var_names) on "
+    "the frame as it is at the time of that call: the references are computed from a deep copy that "
+    "never went through the first call; every judged call runs on its own copy of the history, with "
+    "no other call in between")
 TRUSTED = ["pandas isna / boolean row selection (modelled by incompleteRows / keepRows)"]
 
 TERMS = ["x", "z", "f", "g", "f:x", "np.exp(z / 4)", "I(x + z)", "{z * 2}", "C(f)", "center(x)",
@@ -66,6 +76,73 @@ def punch(r, df, cols, frac=0.2):
     return out
 
 
+def formula_columns(formula, df):
+    toks = set(re.findall(r"`([^`]*)`", formula)) | set(re.findall(r"[A-Za-z_][A-Za-z_0-9]*", formula))
+    return [c for c in df.columns if c in toks]
+
+
+def gen_edits(r, df, formula):
+    """in-place edits of a frame (concrete, replayable): ("set", column, positions) writes missing
+    values, ("fill", column) fills them in, ("roll", column, k) moves the values (and the missing
+    ones) to other rows.  Mostly on columns the formula uses, now and then on one it does not."""
+    n = len(df)
+    used = [c for c in formula_columns(formula, df) if c in NUM or c in CAT] or ["x"]
+    edits = []
+    for _ in range(r.randrange(1, 4)):
+        c = r.choice(used) if r.random() < 0.85 else r.choice(["unused", "unused2"])
+        has_na = bool(df[c].isna().any()) or any(e[0] == "set" and e[1] == c for e in edits)
+        u = r.random()
+        if has_na and u < 0.45:
+            edits.append(("fill", c))
+        elif has_na and u < 0.6:
+            edits.append(("roll", c, r.randrange(1, n)))
+        else:
+            edits.append(("set", c, sorted(r.sample(range(n), r.randrange(1, max(2, n // 3))))))
+    if r.random() < 0.15:               # everything repaired: no incomplete row is left
+        edits = [("fill", c) for c in df.columns if c in NUM or c in CAT or c == "yc"]
+    return edits
+
+
+def apply_edits(d, edits):
+    """modifies the frame object `d` itself"""
+    for e in edits:
+        c = e[1]
+        j = d.columns.get_loc(c)
+        if e[0] == "set":
+            if c in NULLABLE:
+                vals = d[c].tolist()
+                for i in e[2]:
+                    vals[i] = pd.NA
+                d[c] = pd.array(vals, dtype=NULLABLE[c])
+            elif c in NUM or c == "unused":
+                if not pd.api.types.is_float_dtype(d[c]):
+                    d[c] = d[c].astype(float)
+                d.iloc[e[2], j] = np.nan
+            else:
+                if d[c].dtype != object:
+                    d[c] = d[c].astype(object)
+                d.iloc[e[2], j] = None
+        elif e[0] == "fill":
+            if c in FILL:
+                d[c] = d[c].fillna(FILL[c])
+            else:
+                present = [v for v in d[c].tolist() if not pd.isna(v)]
+                d[c] = d[c].fillna(present[0] if present else "a")
+        else:
+            vals = d[c].tolist()
+            k = e[2] % len(vals)
+            d[c] = pd.Series(vals[k:] + vals[:k], index=d.index, dtype=d[c].dtype)
+    return d
+
+
+def run_history(hist, action):
+    """one frame object: first call, in-place edits, the judged call"""
+    d = hist["prior"].copy(deep=True)
+    run(hist["first"][0], d, hist["first"][1])
+    apply_edits(d, hist["edits"])
+    return run(hist["formula"], d, action)
+
+
 def run(formula, df, action):
     import formulae
     try:
@@ -96,8 +173,11 @@ def explore(tier, seed, res=None, replay=None):
     res = res or Result()
     res.rule = ("generated formulas (variables inside calls incl. keyword and nested arguments, "
                 "backquoted names, interactions, group terms, response) x missingness patterns over "
-                "used and unused columns x the three policies + invalid policies; non-trivial = a "
-                "case with at least one incomplete used row; distinct by (formula, pattern)")
+                "used and unused columns x the three policies + invalid policies; for a share of the "
+                "cases also as a history: the frame object evaluated once, edited in place (missing "
+                "values written / filled in / moved, row count unchanged), evaluated again; "
+                "non-trivial = a case with at least one incomplete used row; distinct by (formula, "
+                "pattern, plain / history)")
     n_cases = 300 if tier == "quick" else 8000
     cases = []
     if replay is not None:
@@ -127,15 +207,38 @@ def explore(tier, seed, res=None, replay=None):
         heavy = r.random() < 0.15
         data = punch(r, df.reset_index(drop=True), cols, 1.6 if heavy else 0.2) if cols else df
         data = designs.scramble_index(r, data)       # incl. non-unique row labels
-        jobs.append((formula, path, data, pointwise, cols))
+        jobs.append((formula, path, data, pointwise, cols, None))
+        # history twin: the same frame object evaluated, edited in place, evaluated again
+        rh = rng_for(seed, "c09", path, "history")
+        u_hist = rh.random()
+        if replay is not None or u_hist < (0.4 if tier == "quick" else 0.6):
+            first_formula = formula
+            if rh.random() < 0.25:           # the first call may be about other columns
+                first_formula = rh.choice(["y", "yc"]) + " ~ " + " + ".join(rh.sample(TERMS, 2))
+            edits = gen_edits(rh, data, formula)
+            hist = {"prior": data, "formula": formula, "edits": edits,
+                    "first": (first_formula, rh.choice(["drop", "drop", "error", "pass"]))}
+            now = apply_edits(data.copy(deep=True), edits)      # the frame at the time of the 2nd call
+            jobs.append((formula, path, now, pointwise,
+                         cols + [e[1] for e in edits if e[0] != "fill" and e[1] not in cols], hist))
     rows_req = [{"op": "c09_rows", "formula": f, "frame": designs.frame_json(d), "action": "drop"}
-                for f, _, d, _, _ in jobs]
+                for f, _, d, _, _, _ in jobs]
     rows_out = ask(rows_req)
     spec_reqs, owners = [], []
     pipe_reqs, pipe_owners = [], []
-    for (formula, path, data, pointwise, cols), ro in zip(jobs, rows_out):
+    for (formula, path, data, pointwise, cols, hist), ro in zip(jobs, rows_out):
         res.evaluations += 1
         case = {"formula": formula, "seed_path": path, "missing_in": cols}
+        if hist is None:
+            def first(action, formula=formula, data=data):
+                return run(formula, data, action)
+        else:
+            case["history"] = {"first_call": list(hist["first"]),
+                               "then_edited_in_place": [list(e) for e in hist["edits"]]}
+            res.count("history cases (evaluate, edit in place, evaluate again)")
+
+            def first(action, hist=hist):
+                return run_history(hist, action)
         if "err" in ro:
             res.count("unparsed")
             continue
@@ -154,7 +257,7 @@ def explore(tier, seed, res=None, replay=None):
         if vn is not None and vn != ro["model_used"]:
             res.mismatches.append({"case": case, "impl": {"var_names": vn},
                                    "model": {"used": ro["model_used"]}})
-        drop = run(formula, data, "drop")
+        drop = first("drop")
         # no complete row: refused by the implementation and by the model alike (repair D29)
         model_refuses = "err" in ro["model_step"]
         if model_refuses != (not any(complete)) or (model_refuses and drop.get("err") != "ValueError"):
@@ -163,7 +266,7 @@ def explore(tier, seed, res=None, replay=None):
         if model_refuses and drop.get("err") == "ValueError":
             res.count("refused:no-complete-row")
             res.traces += 1
-            if run(formula, data, "error").get("err") != "ValueError":
+            if first("error").get("err") != "ValueError":
                 res.failures.append({"case": case, "impl": "accepted", "expected": "ValueError",
                                      "finding": None, "why": "na_action='error' accepted incomplete rows"})
             continue
@@ -186,7 +289,7 @@ def explore(tier, seed, res=None, replay=None):
             res.mismatches.append({"case": case, "impl": {"used": drop["used"]},
                                    "model": {"used": ro["model_used"], "step": ro["model_step"]}})
         if any_incomplete:
-            res.nontrivial.add((formula, path))
+            res.nontrivial.add((formula, path, hist is not None))
         problems = []
         if drop["used"] != ro["spec_used"]:
             problems.append(f"used variables {drop['used']} differ from the variables of the "
@@ -201,14 +304,14 @@ def explore(tier, seed, res=None, replay=None):
                     problems.append(f"{p} present in one run only")
                 elif drop[p] is not None:
                     parts.append({"rule": "equal", "a": filtered[p], "b": drop[p], "what": p})
-        err = run(formula, data, "error")
+        err = first("error")
         if any_incomplete != (err.get("err") == "ValueError") or (not any_incomplete and "err" in err):
             problems.append(f"na_action='error': incomplete rows={any_incomplete}, outcome={err.get('err')}")
         for bad in ("ignore", "Drop", ""):
             if run(formula, data, bad).get("err") != "ValueError":
                 problems.append(f"na_action={bad!r} not refused")
         if pointwise and not any(c in CAT for c in cols):
-            ps = run(formula, data, "pass")
+            ps = first("pass")
             ref = run(formula, data.fillna(FILL), "drop")
             if "err" in ps or "err" in ref:
                 problems.append(f"pass: {ps.get('err')} / reference {ref.get('err')}")
